@@ -1,6 +1,12 @@
 """Driver for C10: feed a stream of raw steps into the real MultiStepReplayBuffer exactly as
 train_off_policy does (companion ReplayBuffer / PrioritizedReplayBuffer receives what add() returns),
-snapshot both storages after every add."""
+snapshot both storages after every add.
+
+Varied besides (n, envs, capacity, discount, stream): observation kind (incl. rank-0 and half-integer encodings of
+vfw/drive/ring.py), the buffers' dtype option, reward unit (integers or quarters, negative values), the name of the
+done field ("done" | "terminated" | "termination": detected lazily by the buffer) and its dtype (float | bool), and for one
+environment how the transition is built (batched (1,..) arrays, or unbatched values + unsqueeze(0) as train_off_policy does
+for a non-vectorised environment)."""
 from __future__ import annotations
 
 import numpy as np
@@ -8,78 +14,101 @@ import torch
 
 from .. import codec
 from ..codec import F_ACT, F_NOBS, F_OBS
+from . import ring
 
 ENVS = 8     # row id = t * ENVS + e   (e = 1..E)
 
 
 TOL_UNIT = 0.0
+NOT_A_MULTIPLE = 10 ** 9      # reported as `ret` when a stored return is not a multiple of the unit
 
 
 def rid(t, e):
     return t * ENVS + e
 
 
-def make_step(kind, t, E, rew, done):
+def make_step(kind, t, E, rew, done, rden=1, done_key="done", done_bool=False, unbatched=False):
+    """rew: integer numerators, the reward fed to the buffer is rew / rden."""
     from agilerl.components.data import Transition
 
     ids = [rid(t, e) for e in range(1, E + 1)]
-    obs = codec.stack_obs(kind, ids, F_OBS)
-    nobs = codec.stack_obs(kind, ids, F_NOBS)
-    action = np.array([[codec.val(i, F_ACT)] for i in ids], dtype=np.float32)
-    tr = Transition(obs=obs, action=action, reward=np.array(rew, dtype=np.float32),
-                    next_obs=nobs, done=np.array(done, dtype=np.float32))
+    if unbatched:
+        assert E == 1
+        tr = Transition(obs=ring.make_obs(kind, ids[0], F_OBS), action=np.array(ring.fval(kind, ids[0], F_ACT), dtype=np.float32),
+                        reward=float(rew[0]) / rden, next_obs=ring.make_obs(kind, ids[0], F_NOBS),
+                        done=np.array([done[0]], dtype=np.float32))
+        tr = tr.unsqueeze(0)
+    else:
+        obs = ring.stack_obs(kind, ids, F_OBS)
+        nobs = ring.stack_obs(kind, ids, F_NOBS)
+        action = np.array([[ring.fval(kind, i, F_ACT)] for i in ids], dtype=np.float32)
+        tr = Transition(obs=obs, action=action, reward=np.array(rew, dtype=np.float32) / np.float32(rden),
+                        next_obs=nobs, done=np.array(done, dtype=np.float32))
     td = tr.to_tensordict()
     td.batch_size = [E]
+    if done_bool:
+        td.set("done", td["done"].bool())
+    if done_key != "done":
+        td.rename_key_("done", done_key)
     return td
 
 
-def dec_row(kind, row, scale):
-    o = codec.decode_obs(kind, row["obs"], F_OBS)
-    a = codec.decode_array(row["action"], F_ACT)
-    nx = codec.decode_obs(kind, row["next_obs"], F_NOBS)
+def dec_row(kind, row, scale, done_key="done"):
+    o = ring.decode_obs(kind, row["obs"], F_OBS)
+    a = ring.decode_val(kind, row["action"], F_ACT)
+    nx = ring.decode_obs(kind, row["next_obs"], F_NOBS)
     ok = o is not None and o == a and nx is not None
     r = float(np.asarray(row["reward"]).reshape(-1)[0]) * scale
-    d = float(np.asarray(row["done"]).reshape(-1)[0])
+    d = float(np.asarray(row[done_key]).reshape(-1)[0])
     return {"t": (o or 0) // ENVS, "e": (o or 0) % ENVS, "last": (nx or 0) // ENVS,
-            "laste": (nx or 0) % ENVS, "ret": int(round(r)) if abs(r - round(r)) <= TOL_UNIT else -1,
+            "laste": (nx or 0) % ENVS, "ret": int(round(r)) if abs(r - round(r)) <= TOL_UNIT else NOT_A_MULTIPLE,
             "done": d != 0.0, "ok": bool(ok and (nx % ENVS == o % ENVS) and d in (0.0, 1.0))}
 
 
-def run(n, E, N, gexp, kind, steps, per=False, sample_every=0, seed=0, grat=None):
-    """steps: list of (rew[E], done[E]). Returns trace dict for NStep_Trace."""
+DONE_KEYS = ("done", "done", "terminated", "termination")
+
+
+def run(n, E, N, gexp, kind, steps, per=False, sample_every=0, seed=0, grat=None, rden=1, opts=None):
+    """steps: list of (rew[E], done[E]) (rew: integer numerators over rden). Returns trace dict for NStep_Trace.
+    opts (optional, otherwise derived from seed): done_key, done_bool, unbatched."""
     from agilerl.components.replay_buffer import (MultiStepReplayBuffer, PrioritizedReplayBuffer,
                                                    ReplayBuffer)
     from agilerl.components.sampler import Sampler
 
     torch.manual_seed(seed)
     # discount: 1/2^gexp (every float operation exact) or the rational grat = (num, den), e.g. 99/100 (float32 returns are
-    # then identified with the nearest multiple of 1/den^(n-1) when they are within 2% of that unit)
+    # then identified with the nearest multiple of 1/den^(n-1) when they are within 2% of that unit); (0, 1): gamma = 0
     gnum, gden = grat if grat else (1, 2 ** gexp)
     gamma = gnum / gden
+    exact = grat is None or gden == 1
+    assert exact or rden == 1
     # the `dtype` option of the buffers (documented, float32 by default) varies with the seed: the stored returns are float32 sums
     # of float32 rewards whatever it is
     dt = [torch.float32, torch.float32, torch.float16, torch.bfloat16][seed % 4]
+    o = {"done_key": DONE_KEYS[(seed // 2) % 4], "done_bool": (seed // 2) % 4 >= 2 and seed % 3 == 0, "unbatched": E == 1 and seed % 2 == 1}
+    o.update(opts or {})
+    dk = o["done_key"]
     nbuf = MultiStepReplayBuffer(max_size=N, n_step=n, gamma=gamma, dtype=dt)
     buf1 = PrioritizedReplayBuffer(max_size=N, alpha=0.6) if per else ReplayBuffer(max_size=N)
     s1, sn = Sampler(memory=buf1), Sampler(memory=nbuf)
-    scale = gden ** (n - 1)
+    scale = gden ** (n - 1) * rden
     global TOL_UNIT
-    TOL_UNIT = 0.0 if grat is None else 0.02
+    TOL_UNIT = 0.0 if exact else 0.02
     ev = []
     for t, (rew, done) in enumerate(steps, start=1):
         e = {"op": "add", "exc": "", "rew": [int(x) for x in rew], "done": [bool(x) for x in done],
              "ret1": 0, "nrows": [], "rows1": []}
         try:
-            one = nbuf.add(make_step(kind, t, E, rew, done))
+            one = nbuf.add(make_step(kind, t, E, rew, done, rden=rden, done_key=dk, done_bool=o["done_bool"], unbatched=o["unbatched"]))
             if one is not None:
                 buf1.add(one)
-                o = codec.decode_obs(kind, one[0]["obs"], F_OBS)
-                e["ret1"] = (o or 0) // ENVS
+                oid = ring.decode_obs(kind, one[0]["obs"], F_OBS)
+                e["ret1"] = (oid or 0) // ENVS
             ln, l1 = len(nbuf), len(buf1)
-            e["nrows"] = [dec_row(kind, nbuf.storage[i], scale) for i in range(ln)]
+            e["nrows"] = [dec_row(kind, nbuf.storage[i], scale, dk) for i in range(ln)]
             rows1 = []
             for i in range(l1):
-                r = dec_row(kind, buf1.storage[i], 1)
+                r = dec_row(kind, buf1.storage[i], 1, dk)
                 rows1.append({"t": r["t"], "e": r["e"], "ok": r["ok"] and r["last"] == r["t"]})
             e["rows1"] = rows1
         except Exception as ex:
@@ -99,12 +128,13 @@ def run(n, E, N, gexp, kind, steps, per=False, sample_every=0, seed=0, grat=None
                 bn = sn.sample(idxs)
                 idl = idxs.reshape(-1).tolist()
                 for j in range(len(idl)):
-                    r1 = dec_row(kind, b1[j], 1)
-                    rn = dec_row(kind, bn[j] if bn.batch_size and len(bn.batch_size) == 1 else bn[j][0], scale)
+                    r1 = dec_row(kind, b1[j], 1, dk)
+                    rn = dec_row(kind, bn[j] if bn.batch_size and len(bn.batch_size) == 1 else bn[j][0], scale, dk)
                     se["pairs"].append({"t1": r1["t"], "e1": r1["e"], "tn": rn["t"], "en": rn["e"]})
             except Exception as ex:
                 se["exc"] = f"{type(ex).__name__}: {ex}"[:200]
                 ev.append(se)
                 break
             ev.append(se)
-    return {"cfg": {"n": n, "E": E, "N": N, "gexp": gexp, "gnum": gnum, "gden": gden, "kind": kind, "per": per}, "ev": ev}
+    return {"cfg": {"n": n, "E": E, "N": N, "gexp": gexp, "gnum": gnum, "gden": gden, "rden": rden, "kind": kind, "per": per,
+                    "done_key": dk, "done_bool": bool(o["done_bool"]), "unbatched": bool(o["unbatched"]), "dtype": str(dt)}, "ev": ev}
